@@ -14,6 +14,7 @@ enabled, so every list is a schedule and every interleaving of the goroutines is
 number of points, on the edge buffer size, or on the length of the chain.
 -/
 import Kap.Proofs.C07Outcome
+import Kap.Gen.C07
 import Kap.Gen.C07Go
 import Kap.Spec.C07Go
 namespace Kap.Props.C07
@@ -188,6 +189,14 @@ theorem close_stops_and_delivers (cfg : Cfg) (kinds : List Kind) (n : Nat) (sche
 by extract/c07gosites on every run): a goroutine added to, removed from or moved within the task code makes
 this fail until somebody has looked at how it is stopped and joined. -/
 theorem go_sites_all_classified : goTable.map (·.1) = Kap.C07.Gen.goSites := by decide
+
+/-- The exit path of a node visits EVERY edge (shape of node.closeChildEdges / abortParentEdges / the deferred
+handler of node.start, extracted from node.go on every run; an early `return`/`break`/error result in those loops
+is not recognised and Kap/Gen/C07.lean stops compiling): the model's `exit` action closes the child edge
+whatever happened before, and with several children a Close that fails on the aborted edge of a failed child must
+not keep the healthy siblings from seeing the end of their input. -/
+theorem exit_path_visits_every_edge :
+    Kap.C07.Gen.closeChildEdgesVisitsAll = true ∧ Kap.C07.Gen.abortParentEdgesVisitsAll = true := by decide
 
 /-- **No helper goroutine sends on a closed edge**: with the repaired barrier timers (`Edge.CollectUnlessClosed`,
 e30c0fb) no schedule of any chain — barrier nodes with delete(TRUE) included — reaches a state in which a
